@@ -10,6 +10,7 @@ import traceback
 from . import tools
 
 VERIF = tools.VERIF
+OUT = os.environ.get('VERIF_OUT_DIR', VERIF)   # drills against a scratch copy (VERIF_REPO) write their evidence/replays elsewhere
 
 
 class Ctx:
@@ -33,7 +34,7 @@ class Ctx:
         self._so = None
         self.findings_db = load_findings()
         import shutil
-        shutil.rmtree(os.path.join(VERIF, 'replays', prop), ignore_errors=True)   # replays of earlier runs are stale
+        shutil.rmtree(os.path.join(OUT, 'replays', prop), ignore_errors=True)   # replays of earlier runs are stale
         self.finding_hits = collections.Counter()
         self.finding_excluded = collections.Counter()
 
@@ -77,7 +78,7 @@ class Ctx:
             if v['key'] == key:
                 v['count'] += 1
                 return
-        rdir = os.path.join(VERIF, 'replays', self.prop)
+        rdir = os.path.join(OUT, 'replays', self.prop)
         os.makedirs(rdir, exist_ok=True)
         h = hashlib.sha256(repr(key).encode()).hexdigest()[:12]
         path = os.path.join(rdir, '%s-%s.json' % (self.prop, h))
@@ -111,8 +112,8 @@ class Ctx:
             cov['notes'] = self.notes
         ev = {'property_id': self.prop, 'tier': self.tier, 'seed': self.seed, 'level': self.level, 'coverage': cov,
               'assumptions': self.assumptions, 'wall_s': round(wall, 2), 'violations': len(self.violations)}
-        os.makedirs(os.path.join(VERIF, 'evidence'), exist_ok=True)
-        with open(os.path.join(VERIF, 'evidence', self.prop + '.json'), 'w') as f:
+        os.makedirs(os.path.join(OUT, 'evidence'), exist_ok=True)
+        with open(os.path.join(OUT, 'evidence', self.prop + '.json'), 'w') as f:
             json.dump(ev, f, indent=1, default=repr)
         for fid, what in self.known:
             print('KNOWN-FINDING: property=%s %s [%s]' % (self.prop, what, fid))
